@@ -1,13 +1,13 @@
 CONSTANTS
   P = 46337
   Ds = {2}
-  Rs = {3}
-  Kinds = {"Measure", "PDF:S"}
-  Keys = {"x", "(Ax+a)", "xx'", "(Ax+a)'(Bx+b)", "(Ax+a)(Bx+b)'", "(Ax+a)(Bx+b)'(Cx+c)", "(Ax+a)'(Bx+b)(Cx+c)'", "x(A'x + a)x'", "xb'xx'", "(Ax+a)'(Bx+b)(Cx+c)'(Dx+d)", "(Ax+a)(Bx+b)'(Cx+c)(Dx+d)'"}
+  Rs = {1, 2}
+  Kinds = {"Measure", "PDF:INT", "DiagMeasure"}
+  Keys = {"x", "xx'", "(Ax+a)'(Bx+b)", "(Ax+a)(Bx+b)'"}
   MaxDeviate = 1
   KLMs = {123}
   FactorKindsC14 = {"Factor", "Rank1"}
-  Warm = {"none"}
+  Warm = {"light", "full", "normalize", "integral"}
 INIT Init
 NEXT Next
 CHECK_DEADLOCK FALSE
